@@ -1,6 +1,7 @@
 """C15 Object lifecycle is leak- and crash-free, also when allocations fail."""
 import astq
 from rules import life
+from rules.C14 import rule_globals
 
 LEVEL = 'other'
 TECHNIQUE = 'structural exception-safety analysis on the resolved AST (try coverage of every allocation, thrown-type vs handler-type hierarchy, acquire/release pairing table with folded sizes and allocator identity, value-initialisation, null-guard shape)'
@@ -28,3 +29,4 @@ def run(ctx, R):
     life.rule_ctor(ctx, R, 'K0', ('randomx::JitCompilerX86',))
     life.rule_ctor(ctx, R, 'K2', ('randomx::JitCompilerA64',))
     life.rule_ctor(ctx, R, 'K3', ('randomx::JitCompilerRV64',))
+    rule_globals(ctx, R)    # a failed request leaves no latch behind: the library keeps no mutable global state
